@@ -454,6 +454,7 @@ def _resume(plan, inst, ctx):
     with seams.allocator(garbage, salt=2, fired=fired):
         for s in segs:
             n = s['n']
+            inst.offset = done
             if s['end'] == 'crash':
                 rec = Recorder(crash_at=n * per)
                 try:
